@@ -171,9 +171,9 @@ CLAIMED = {
              "characters parsed from str / StringIO / short reads / chunk sizes {1,2,3,5,7,16} / bytes, BytesIO and "
              "non-seekable byte streams in 5 encodings must give the same tree and error list. Theorem: after k characters the "
              "reported (line, column) is the one the first k normalised characters determine, for every segmentation "
-             "(invariant over refills). after any sequence of char() and charsUntil() calls the delivered characters followed by the remaining ones are "
+             "(invariant over refills). after any sequence of char(), charsUntil() and peek (char() then unget of that character) calls the delivered characters followed by the remaining ones are "
              "the normalised input and position() is the (line, column) of the delivered ones, for every segmentation. "
-             "PARTIAL: unget is modelled and validated but positions after it are not covered by the theorems; decoders are not modelled. Three fixes in /repo, one known finding (invalid-codepoint positions).",
+             "PARTIAL: multi-character unget across a chunk boundary is modelled and validated but positions after it are not covered by the theorems; decoders are not modelled. Three fixes in /repo, one known finding (invalid-codepoint positions).",
         design_ref="DESIGN.md 3 C05, A.3",
         note="source modelled as the list of future read() results; codecs stream readers trusted to be "
              "segmentation independent (exercised by the end-to-end run).",
